@@ -159,10 +159,16 @@ def run_case(rng, tier, idx):
         c.tag('model:' + d['model'], 'clause:entrywise', 'offset:nonzero' if d['lam']['offset'] else 'offset:zero')
         c.nontrivial = d['lam']['offset'] != 0 or 'y1' in d or d['flags']['_style'] != 'ss'
         p = gen.build_panel(d)
+        for k_ in gen.leftovers(rng, p):
+            c.tag('left:' + k_)
         num = 1 if d['model'] == 'plate_w' else 3
         size_p = num * d['m'] * d['n']
+        # 40%: the mass matrix is the first thing asked of the object
+        fresh = bool(rng.random() < 0.4)
+        c.tag('order:fresh' if fresh else 'order:k0_first')
         try:
-            p.calc_k0(silent=True)
+            if not fresh:
+                p.calc_k0(silent=True)
             M = p.calc_kM(size=d['size'], row0=d['row0'], col0=d['row0'], silent=True)
         except Exception as e:
             return c.reject('%s in calc_kM: %s' % (type(e).__name__, str(e)[:100]))
@@ -204,11 +210,16 @@ def run_case(rng, tier, idx):
         c = Case({'panel': d, 'mode': mode})
         c.tag('model:' + d['model'], 'clause:total_mass', 'offset:nonzero' if d['lam']['offset'] else 'offset:zero')
         p = gen.build_panel(d)
+        for k_ in gen.leftovers(rng, p):
+            c.tag('left:' + k_)
         num = 1 if model == 'plate_w' else 3
         size_p = num * d['m'] * d['n']
         d['size'] = size_p
+        fresh = bool(rng.random() < 0.4)
+        c.tag('order:fresh' if fresh else 'order:k0_first')
         try:
-            p.calc_k0(silent=True)
+            if not fresh:
+                p.calc_k0(silent=True)
             M = p.calc_kM(silent=True).toarray()
         except Exception as e:
             return c.reject('%s in calc_kM: %s' % (type(e).__name__, str(e)[:100]))
